@@ -104,13 +104,19 @@ def rule_dependence(ctx: Ctx) -> None:
                   "was split into fills / ignores the configuration")
     src = ast.unparse(fn.node)
     defs = {s.target.id: s.node.value for s in A.stores(fn) if isinstance(s.target, ast.Name) and hasattr(s.node, "value")}
+
+    def resolve(e, depth=0):
+        while isinstance(e, ast.Name) and e.id in defs and isinstance(defs[e.id], ast.Name) and depth < 5:
+            e = defs[e.id]
+            depth += 1
+        return e
     pv = defs.get(val.id)
-    okp = isinstance(pv, ast.BinOp) and isinstance(pv.op, ast.Sub) and "order.fees" in ast.unparse(defs.get(A.dotted(pv.right) or "", ast.Constant(value=""))) \
-        and isinstance(pv.left, ast.Name)
+    okp = isinstance(pv, ast.BinOp) and isinstance(pv.op, ast.Sub) and isinstance(resolve(pv.right), ast.Name) \
+        and "order.fees" in ast.unparse(defs.get(resolve(pv.right).id, ast.Constant(value=""))) and isinstance(resolve(pv.left), ast.Name)
     ctx.check(okp, "C09.2", "pending fee = total due - already charged", fn, st[0].stmt, ast.unparse(pv) if pv is not None else "?",
               f"pending fee is computed as {ast.unparse(pv) if pv is not None else '?'}")
     if okp:
-        tv = defs.get(pv.left.id)
+        tv = defs.get(resolve(pv.left).id)
         txt = ast.unparse(tv) if tv is not None else ""
         ctx.check(txt.startswith("-max(") and "self._percentage / Decimal(100)" in txt and "self._min_fee" in txt and "abs(" in txt, "C09.2",
                   "total due = -max(|cumulative quote| x pct / 100, minimum)", fn, st[0].stmt, txt, f"total due is {txt}")
